@@ -16,9 +16,15 @@
      W5 wait_one_inv            (intermediate invariant: mid_inv, extract_mid_inv)
      W6 wait_subset_frame_partial, wait_nreqs, wait_completed_gone
      W7 wait_events_put, wait_events_get
+     F  fx = true (the repaired library): fixed_struct, subset_flags_fixed, status_own_fixed,
+        ids_reset_fixed, statuses_fixed, ids_pending_fixed, failed_extract_fixed, unflag_inv,
+        wait_one_failed_fixed, wait_one_inv_fixed, wait_subset_frame_fixed
      Examples on a concrete state (w_xs3: two puts and a get on a 4x5x6 variable)
 
    Notes
+   * extract_reqs / wait_one have two variants selected by fx (false = snapshot, true = with
+     patches/F3_poison.diff).  W1-W3, extract_all_flags, W5-W7 hold for every fx; the subset_* results
+     of W4 are about fx = false; section F is about fx = true.
    * W2-W3, W5-W7 cover every path of extract_reqs (n < 0, the three shortcuts, the subset path).
    * The subset-path theorems of W4 need `no_shortcut` and (statuses <> NULL or n <> nreqs): on a
      shortcut path req_ids is not read at all and status pointers are bound in queue order
@@ -2746,6 +2752,59 @@ Proof.
 Qed.
 
 
+(* ---- the repaired library (fx = true) on the same states ---- *)
+(* B3: req_ids [2; 0] does not name the queue in order, so the shortcut is not taken any more and the
+   status pointers are bound by position: request 2 <- statuses[0], request 0 <- statuses[1] *)
+Example w_status_own_fixed_example :
+  nb_inv w_xp2 /\ 0 <= 2 /\ 2 = Zlen [2; 0] /\
+  ex_err (extract_reqs true w_xp2 2 [2; 0] true [7; 7]) = NC_NOERR /\
+  map (fun l => (l_id l, l_to_free l, l_status l)) (put_lead (ex_st (extract_reqs true w_xp2 2 [2; 0] true [7; 7])))
+    = [(0, true, Some 1); (2, true, Some 0)] /\
+  (* in queue order the shortcut is still taken, with the same binding *)
+  map (fun l => (l_id l, l_to_free l, l_status l)) (put_lead (ex_st (extract_reqs true w_xp2 2 [0; 2] true [7; 7])))
+    = [(0, true, Some 0); (2, true, Some 1)].
+Proof.
+  split; [apply status_own_shortcut_counterexample|]. split; [lia|]. split; [reflexivity|].
+  vm_compute. repeat split; reflexivity.
+Qed.
+
+(* B5: ids naming no request, or a duplicated id, now FAIL and leave the queues unmarked; the
+   unrepaired library leaves request 2 flagged NC_REQ_TO_FREE after the failed call *)
+Example w_failed_extract_fixed_example :
+  ex_err (extract_reqs true w_xp2 2 [8; 8] true [7; 7]) = NC_EINVAL_REQUEST /\
+  put_lead (ex_st (extract_reqs true w_xp2 2 [8; 8] true [7; 7])) = map unflag (put_lead w_xp2) /\
+  ex_err (extract_reqs true w_xs3 2 [2; 2] true [7; 7]) = NC_EINVAL_REQUEST /\
+  put_lead (ex_st (extract_reqs true w_xs3 2 [2; 2] true [7; 7])) = map unflag (put_lead w_xs3) /\
+  map l_to_free (put_lead (ex_st (extract_reqs true w_xs3 2 [2; 2] true [7; 7]))) = [false; false] /\
+  map l_to_free (put_lead (ex_st (extract_reqs false w_xs3 2 [2; 2] true [7; 7]))) = [false; true].
+Proof. vm_compute. repeat split; reflexivity. Qed.
+
+Definition w_xwbad : waitargs := mkwa 2 [2; 2] true [7; 7].
+Example w_wait_failed_fixed_example :
+  wr_rc (fst (wait_one isort_reqs isort_segs true w_xs3 w_xwbad empty_disk)) = NC_EINVAL_REQUEST /\
+  nb_inv (wr_st (fst (wait_one isort_reqs isort_segs true w_xs3 w_xwbad empty_disk))) /\
+  (* ... while the state left by the unrepaired library violates the invariant *)
+  ~ nb_inv (wr_st (fst (wait_one isort_reqs isort_segs false w_xs3 w_xwbad empty_disk))).
+Proof.
+  split; [vm_compute; reflexivity|]. split; [apply wait_one_inv_fixed; exact w_xs3_inv|].
+  intros ((_ & _ & _ & _ & Hunf) & _). rewrite Forall_forall in Hunf.
+  assert (Hin : exists l, In l (put_lead (wr_st (fst (wait_one isort_reqs isort_segs false w_xs3 w_xwbad empty_disk))))
+                          /\ l_to_free l = true).
+  { w_lit (put_lead (wr_st (fst (wait_one isort_reqs isort_segs false w_xs3 w_xwbad empty_disk)))).
+    eexists. split; [right; left; reflexivity|reflexivity]. }
+  destruct Hin as (l & Hl & Hf). rewrite (Hunf l Hl) in Hf. discriminate Hf.
+Qed.
+
+(* B6: a wait for request 2 only keeps request 0 and 1 *)
+Example w_frame_fixed_hyps :
+  nb_inv w_xs3 /\ 0 <= wa_n w_xwa /\ wa_n w_xwa = Zlen (wa_ids w_xwa) /\
+  wr_rc (fst (wait_one isort_reqs isort_segs true w_xs3 w_xwa empty_disk)) = NC_NOERR /\
+  ~ In 0 (wa_ids w_xwa).
+Proof.
+  split; [exact w_xs3_inv|]. split; [vm_compute; discriminate|]. split; [reflexivity|].
+  split; [vm_compute; reflexivity|]. cbn. intros [H|[]]. discriminate H.
+Qed.
+
 Print Assumptions extract_leads_same.
 Print Assumptions extract_put_slices.
 Print Assumptions extract_get_slices.
@@ -2765,3 +2824,14 @@ Print Assumptions wait_completed_gone.
 Print Assumptions wait_events_put.
 Print Assumptions wait_events_get.
 Print Assumptions w_xs3_inv.
+Print Assumptions fixed_struct.
+Print Assumptions subset_flags_fixed.
+Print Assumptions status_own_fixed.
+Print Assumptions ids_reset_fixed.
+Print Assumptions statuses_fixed.
+Print Assumptions ids_pending_fixed.
+Print Assumptions failed_extract_fixed.
+Print Assumptions unflag_inv.
+Print Assumptions wait_one_failed_fixed.
+Print Assumptions wait_one_inv_fixed.
+Print Assumptions wait_subset_frame_fixed.
